@@ -581,6 +581,45 @@ def c06b_task(desc):
         s.cleanup()
 
 
+def c06c_task(desc):
+    """C06 under delays of the compressor threads (guarded point compressor.loop): the scenario of
+    p_c08.order_task judged for the failed flag, exit status, statuses and skipping."""
+    import p_c08
+    x = p_c08.order_task(desc)
+    if "engine_error" in x:
+        return x
+    n, fail = desc["n"], desc["fail"]
+    viol = []
+    doc = x.get("doc")
+    if doc is None:
+        viol.append(("no-result-document", "policy %s: exit %s" % (desc["policy"], x.get("exit"))))
+    else:
+        want_failed = fail is not None
+        if bool(doc.get("failed")) != want_failed:
+            viol.append(("failed-flag-wrong", "policy %s, failing member %s: failed=%s" % (desc["policy"], fail, doc.get("failed"))))
+        if x.get("exit") != (1 if want_failed else 0):
+            viol.append(("exit-status-wrong", "policy %s, failing member %s: process exit status %s" % (desc["policy"], fail, x.get("exit"))))
+        st = {t: v for cr in doc["results"] for g in cr["target_groups"] for t, v in g.items()}
+        for i in range(n):
+            t = "g%d" % i
+            v = st.get(t) or {}
+            if i == fail:
+                if v.get("status") != "error" or v.get("code") != 1:
+                    viol.append(("status-wrong", "policy %s: the member that exited 1 is reported %s" % (desc["policy"], v)))
+            elif fail is None and (v.get("status") != "success" or v.get("code") != 0):
+                viol.append(("status-wrong", "policy %s: %s exited 0 in a run without failure and is reported %s" % (desc["policy"], t, v)))
+            elif v.get("status") == "success" and v.get("code") != 0:
+                viol.append(("status-wrong", "policy %s: %s reported %s" % (desc["policy"], t, v)))
+        pv = st.get("post") or {}
+        if want_failed and (pv.get("status") != "skipped" or "post" in x.get("started", [])):
+            viol.append(("later-group-not-skipped", "policy %s: the dependent target is reported %s, started=%s" % (desc["policy"], pv, "post" in x.get("started", []))))
+        if not want_failed and pv.get("status") != "success":
+            viol.append(("status-wrong", "policy %s: the dependent target is reported %s in a run without failure" % (desc["policy"], pv)))
+    return {"evaluations": 1, "nontrivial": 1, "states": 1, "transitions": x.get("hits", 0), "unrealised": 0,
+            "violations": [{"sig": sig, "detail": d, "rank": 500 + n, "case": {"c06c": desc}} for sig, d in viol],
+            "sample": {"compressor_policy": desc["policy"], "failing_member": fail}}
+
+
 # ------------------------------------------------------------------------------------------ C05 part A
 
 def c05_scenarios(tier):
@@ -895,6 +934,8 @@ def _worker(task):
             return c05_task(desc)
         if kind == "c06b":
             return c06b_task(desc)
+        if kind == "c06c":
+            return c06c_task(desc)
     except common.EngineError as e:
         return {"engine_error": "%s: %s" % (kind, e)}
     except Exception:
@@ -908,7 +949,7 @@ def run_tasks(tasks, workers=None):
 RULES = {
     "C04": "(thorough adds every labelled DAG on 2-4 nodes, single command, every release order) scenarios: 12 dependency shapes x selection modes (all targets / changed subset after a checkpoint / -t with --deps) x command lists (build; build test; sequence(build,test) then lint); every child blocks until released; stateless DFS over every release order (single-command scenarios: all orders; multi-command: all schedules with <= max_dev non-default choices) plus the eager deviation for every single child; monitor: at each arrival every dependency in the run and every executable of every earlier command has exited; evaluations = executions (complete runs); non-trivial = scenarios with more than one schedule",
     "C16": "(plus groups whose members all resolve the command to one shared executable, through definitions or a shared commands.path) (plus group sizes 2..13 with a `log tail` listener attached, three filter variants) (plus chains of wide groups, e.g. 30/30/10 and 40/40 under 1-2 commands, so that many tasks precede the group under test) group sizes x position of the group in the plan (only, first, middle, last) x 1-2 commands; no member is released before every member of the group has arrived (each member waits for all the others to start); oracle: every member arrives, then the run exits 0 with all success entries; non-trivial = scenarios where the full group rendezvoused for every command",
-    "C06": "part B (internal orderings): plans with a group of n in {1,2,3} (thorough 4) followed by a dependent target, all commands succeed, points group.pre_shutdown:<i> and compressor.gone:<x> active; the free run, every single constraint `compressor.gone:x before group.pre_shutdown:i` per group and pairs of constraints (hit b is held until hit a was seen); oracle exit 0, failed=false, all success, stored logs complete. part A: plans = dependency shapes with two commands; fault assignments: every single fault (exit codes, death by signal, missing x bit, undefined with/without --fail-on-undefined) at every (command,target) position, pairs of faults within a command, and no fault; every exit code 1..255 at one position of the fork shape (default schedule); a subset again with an earlier failed / successful run's records on disk and with a listener attached; for each every release order of the groups (<=3 members); oracle: failed flag, exit status, skipped/not-started later groups and commands, status truthfulness; evaluations = executions",
+    "C06": "part B (internal orderings): plans with a group of n in {1,2,3} (thorough 4) followed by a dependent target, all commands succeed, points group.pre_shutdown:<i> and compressor.gone:<x> active; the free run, every single constraint `compressor.gone:x before group.pre_shutdown:i` per group and pairs of constraints (hit b is held until hit a was seen); oracle exit 0, failed=false, all success, stored logs complete; plus the compressor-delay scenarios of C08 (guarded point compressor.loop: free / held until the group is joined / until the first shutdown request / one request behind) x no failure and each member failing last, judged for failed flag, exit status, statuses and skipping of the dependent group. part A: plans = dependency shapes with two commands; fault assignments: every single fault (exit codes, death by signal, missing x bit, undefined with/without --fail-on-undefined) at every (command,target) position, pairs of faults within a command, and no fault; every exit code 1..255 at one position of the fork shape (default schedule); a subset again with an earlier failed / successful run's records on disk and with a listener attached; for each every release order of the groups (<=3 members); oracle: failed flag, exit status, skipped/not-started later groups and commands, status truthfulness; evaluations = executions",
     "C05": "(plus variants in which some targets define the command through commands.definitions with explicit paths and the declaration order is reversed) dependency shapes x command-definition patterns x command lists x selection modes (no targets without checkpoint; checkpoint + every changed subset; -t S; -t S --deps; the -t forms also with a checkpoint present) in trace mode; oracle: result document pairs == commands x selected targets exactly once, groups equal analyze --target-groups taken immediately before (or singletons / a valid layering of the closure), executable starts at most once, exactly once iff defined and nothing failed earlier, never when undefined; evaluations = runs",
 }
 
@@ -919,7 +960,9 @@ def run(prop, tier):
     tasks = gen(tier)
     if prop == "C06":
         part = os.environ.get("VERIF_C06_PART", "AB")
-        tasks = (c06b_scenarios(tier) if "B" in part else []) + (tasks if "A" in part else [])
+        import p_c08
+        tasks = (c06b_scenarios(tier) if "B" in part else []) + (tasks if "A" in part else []) + \
+            ([("c06c", d, {}) for d in p_c08.order_scenarios(tier)] if "B" in part else [])
     results = run_tasks(tasks)
     errs = [r["engine_error"] for r in results if r and "engine_error" in r]
     if errs:
@@ -981,6 +1024,8 @@ def replay(prop, path):
         r = c16_task(case["c16"])
     elif "c06b" in case:
         r = c06b_task(case["c06b"])
+    elif "c06c" in case:
+        r = c06c_task(case["c06c"])
     elif "c05" in case:
         r = c05_task(case["c05"])
     else:
